@@ -147,6 +147,12 @@ class IndentLogger(Logger):
         self._level    = 0
         self._bullets  = dict(enumerate(['','* ','> ','- ','+ ']))
 
+    def __getstate__(self):
+        #A copy that is sent to another process doesn't take along the messages that are waiting here for a timed block to end.
+        #The block ends in this process. In the copy nothing would ever flush them, and as long as there are any every new
+        #message is put behind them rather than written: a background process started inside of a timed block logged nothing.
+        return {**self.__dict__, '_messages': []}
+
     @contextmanager
     def _indent_context(self) -> 'Iterator[Logger]':
         try:
